@@ -634,7 +634,7 @@ const (
 	kH0
 )
 
-var c13Paths = map[int]string{kGet: "a", kBig: "big", kUp: "up", kUpBig: "upbig", kObs: "obs", kNoObs: "noobs", kNf: "nf", kBad: "bad", kDl: "dl", kDrop: "d0", kUpD: "upd", kH0: "h0", kH0 + 1: "h1", kH0 + 2: "h2"}
+var c13Paths = map[int]string{kGet: "a", kBig: "big", kUp: "up", kUpBig: "upbig", kObs: "obs", kNoObs: "noobs", kNf: "nf", kBad: "bad", kDl: "dl", kDrop: "d0", kUpD: "d1", kH0: "h0", kH0 + 1: "h1", kH0 + 2: "h2"}
 
 // limiter events of a request that finds its endpoint free
 func (p *c13Run) limIn(k int) int {
@@ -1203,7 +1203,7 @@ func (p *c13Run) apply(op string) {
 	case "dl":
 		p.opDo(kDl, 0, 100, true, nil)
 	case "dldrop":
-		p.opDo(kDrop, 0, 100, true, nil)
+		p.opDo(kUpD, 0, 100, true, nil) // its own lost path: never shares an endpoint slot with hdrop
 	case "upab":
 		p.opAbandon(true, arg(1))
 	case "downab":
